@@ -4,7 +4,8 @@ Correspondence: generated UMCTL SETCLUSTER / SETREPL sequences through a real Sh
 UMCTL LISTCLUSTER, routing of a probe key and UMCTL INFOREPL after every message are compared with the extracted model.
 Monitors: the clauses of the property evaluated (independently of the model) on what the implementation answered.
 Concurrent clause: 4 OS threads send one SETREPL each at the same time; invariants checked, and the extracted thread model
-is used as an acceptor (the observed replies / final roles / behaviour of later probes must be one of its quiescent outcomes)."""
+is used as an acceptor (the observed replies / final roles / behaviour of later probes must be one of its quiescent outcomes).
+4 OS threads send one SETCLUSTER each: replies and final (epoch, cluster, routing) must be those of some one-at-a-time order."""
 import vlib
 
 MANIFEST = {
@@ -25,7 +26,7 @@ MANIFEST = {
           'Tied to the code by a differential run of real SETCLUSTER/SETREPL sequences through SharedForwardHandler.',
   'note': 'All theorems closed under the global context. Partial: (1) the concurrent clause is proved for the model; the real '
           'interleavings are sampled from 4 OS threads (not controlled), checked against invariants and against the model used as '
-          'an acceptor; (2) the replication epoch is not reported by any command, it is observed through later accept/reject '
+          'an acceptor (SETREPL) / against linearizability in some order (SETCLUSTER); (2) the replication epoch is not reported by any command, it is observed through later accept/reject '
           'decisions and INFOREPL; (3) a message content is an identifier + the address designated for one probe key; slot maps '
           'and migration tasks carried over an accepted message are not modelled here; (4) argument parsing is outside (Wire model); '
           'epochs are unbounded N in the model, u64 in the code (generated below 2^64). Stated as true only outside the class '
